@@ -224,6 +224,21 @@ class DegreeAnalysis:
             if e.id in self.consts:
                 return LIT
             return V("other")
+        if isinstance(e, ast.IfExp):
+            # `A if isinstance(x, NDFrame) else B`: decided by what x is here (a level series or a number), like the statement form
+            t, negated = e.test, False
+            while isinstance(t, ast.UnaryOp) and isinstance(t.op, ast.Not):
+                t, negated = t.operand, not negated
+            if isinstance(t, ast.Call) and isinstance(t.func, ast.Name) and t.func.id == "isinstance" and len(t.args) == 2 and isinstance(t.args[0], ast.Name) and "NDFrame" in ast.unparse(t.args[1]):
+                x = env.get(t.args[0].id)
+                is_frame = None
+                if x is not None and x.kind == "num" and len(x.deg) == 1 and list(x.deg.values())[0] == 1:
+                    is_frame = True
+                elif x is not None and (x.kind == "lit" or (x.kind == "num" and not x.deg)):
+                    is_frame = False
+                if is_frame is not None:
+                    return self.ev(f, e.body if (is_frame != negated) else e.orelse, env)
+            return self._join(self.ev(f, e.body, env), self.ev(f, e.orelse, env), e)
         if isinstance(e, ast.UnaryOp):
             return self.ev(f, e.operand, env)
         if isinstance(e, ast.BinOp):
